@@ -120,7 +120,7 @@ package parsers
 //@     arr(c.resultTokens) != arr(c.originalTokens)
 //@ func (c *MustacheParser) Clear
 //@   requires c != nil
-//@   ensures[C03] len(c.originalTokens) == 0 && len(c.initialTokens) == 0 && len(c.resultTokens) == 0 && len(c.variableNames) == 0 && c.currentTokenIndex == 0
+//@   ensures[C03,C05] len(c.originalTokens) == 0 && len(c.initialTokens) == 0 && len(c.resultTokens) == 0 && len(c.variableNames) == 0 && c.currentTokenIndex == 0 && c.template == ""
 //@   ensures[C03] fresh(c.originalTokens) && fresh(c.initialTokens) && fresh(c.resultTokens) && mFresh(c)
 //@   assigns c.template, c.originalTokens, c.initialTokens, c.resultTokens, c.currentTokenIndex, c.variableNames
 //@   nopanic
